@@ -19,7 +19,10 @@ MapOf(t) == Con("map", <<Bas("string"), t>>)
 Chan(t)  == Con("chan", <<t>>)
 Func(t)  == Con("func", <<t, t>>)          \* func(t) t
 
-NestKinds == {"ptr", "slice", "map", "chan", "func", "variadic"}
+TPar(n)  == Leaf("tparam", "", n)           \* a type parameter of the (generic) interface
+Inst(g, t) == Con("inst", <<g, t>>)          \* g[t]: a generic type instantiated with t
+
+NestKinds == {"ptr", "slice", "map", "chan", "func", "variadic", "inst"}
 
 Prm(name, t) == [name |-> name, t |-> t, variadic |-> FALSE]
 VPrm(name, t) == [name |-> name, t |-> Slice(t), variadic |-> TRUE]
@@ -34,6 +37,15 @@ SaltOf(sk)     == Nm("orig", AltNameOf(sk))      \* the same type under its othe
 ThirdAlias     == Nm("third", "H")               \* `type H = orig.T` declared in a third package, never configured
 UT             == Nm("orig", "U")                \* another type of the original package
 TwinOf(sk)     == Nm("same", KeyNameOf(sk))      \* same type NAME in another package (which also has the orig's package name)
+\* Generic positions: the configured type is declared in the package of the generic interface itself
+\* (`type K string` next to `type I1[K comparable, V any] interface{...}`), so that a TYPE PARAMETER can carry the
+\* configured type's name.  A type parameter is not the named type: it stays, whatever it is called.
+GenericPos == {"tparam", "targ", "tparamreal"}
+LocalK     == Nm("src", "K")
+KeyFor(p, sk) == IF p \in GenericPos THEN <<"src", "K">> ELSE KeyOf(sk)
+TParamsOf(p) == CASE p = "tparam"     -> <<[name |-> "K", constraint |-> "comparable"], [name |-> "V", constraint |-> "any"]>>
+                  [] p = "tparamreal" -> <<[name |-> "P", constraint |-> "any"]>>
+                  [] OTHER            -> << >>
 ToOf(tg) == CASE tg = "named"    -> Nm("alt", "R")
               [] tg = "alias"    -> Nm("alt", "RA")
               [] tg = "samename" -> Nm("same", "R")
@@ -56,6 +68,9 @@ M1Params(p, sk) ==
     [] p = "mixed"     -> <<Prm("x", S), Prm("p", Ptr(S))>>
     [] p = "viaalias"  -> <<Prm("x", SaltOf(sk))>>
     [] p = "viathird"  -> <<Prm("h", ThirdAlias)>>
+    [] p = "tparam"     -> <<Prm("k", TPar("K"))>>                      \* the type parameter is NAMED like the configured type
+    [] p = "targ"       -> <<Prm("b", Inst(Nm("src", "Box"), LocalK))>>    \* the configured type as a type argument (nested: open)
+    [] p = "tparamreal" -> <<Prm("p", TPar("P")), Prm("k", LocalK)>>     \* a type parameter next to the real configured type
 M1Results(p, sk) ==
   LET S == SOf(sk) IN
   CASE p = "param"  -> <<Bas("error")>>
@@ -66,6 +81,9 @@ M1Results(p, sk) ==
     [] p = "mixed"  -> <<S>>
     [] p = "viaalias" -> <<SaltOf(sk)>>
     [] p = "viathird" -> <<ThirdAlias, Bas("error")>>
+    [] p = "tparam"     -> <<TPar("V"), Bas("bool")>>
+    [] p = "targ"       -> <<Inst(Nm("src", "Box"), LocalK)>>
+    [] p = "tparamreal" -> <<LocalK, TPar("P")>>
     [] OTHER        -> << >>
 
 \* an extra parameter goes in front, or at the end but never after a variadic parameter
@@ -94,8 +112,8 @@ I2Methods(o, sk) ==
     [] OTHER        -> << >>
 
 Ifaces(p, o, sk) ==
-  <<[name |-> "I1", methods |-> I1Methods(p, o, sk)]>>
-  \o (IF o \in {"ifaceU", "ifaceT"} THEN <<[name |-> "I2", methods |-> I2Methods(o, sk)]>> ELSE << >>)
+  <<[name |-> "I1", tparams |-> TParamsOf(p), methods |-> I1Methods(p, o, sk)]>>
+  \o (IF o \in {"ifaceU", "ifaceT"} THEN <<[name |-> "I2", tparams |-> << >>, methods |-> I2Methods(o, sk)]>> ELSE << >>)
 
 \* the mocks the single output file contains: (struct name, interface, which configs entry configures it)
 TwoEntries == {"entry2", "entry2x", "entry2y"}
@@ -135,25 +153,25 @@ Covered(mk, lv) == MockTo(mk, lv, "named") # NoTarget
 Choices == [desc : SUBSET NestKinds]
 
 RECURSIVE Sub(_, _, _, _)
-Sub(t, ch, sk, to) ==
+Sub(t, ch, key, to) ==
   IF t.k = "named"
-  THEN IF <<t.p, t.n>> = KeyOf(sk) THEN to ELSE t
-  ELSE IF t.k = "basic" THEN t
-  ELSE IF t.k \in ch.desc THEN [t EXCEPT !.a = [i \in DOMAIN t.a |-> Sub(t.a[i], ch, sk, to)]]
+  THEN IF <<t.p, t.n>> = key THEN to ELSE t
+  ELSE IF t.k \in {"basic", "tparam"} THEN t          \* a type parameter is never the configured type
+  ELSE IF t.k \in ch.desc THEN [t EXCEPT !.a = [i \in DOMAIN t.a |-> Sub(t.a[i], ch, key, to)]]
   ELSE t
 
 \* a parameter / result at top level: exact match MUST be replaced, whatever the choice
-TopType(t, variadic, ch, sk, to) ==
+TopType(t, variadic, ch, key, to) ==
   IF variadic
-  THEN IF "variadic" \in ch.desc THEN Slice(Sub(t.a[1], ch, sk, to)) ELSE t
-  ELSE IF t.k = "named" /\ <<t.p, t.n>> = KeyOf(sk) THEN to
-  ELSE Sub(t, ch, sk, to)
+  THEN IF "variadic" \in ch.desc THEN Slice(Sub(t.a[1], ch, key, to)) ELSE t
+  ELSE IF t.k = "named" /\ <<t.p, t.n>> = key THEN to
+  ELSE Sub(t, ch, key, to)
 
-RenderMethod(m, rep, ch, sk, to) ==
+RenderMethod(m, rep, ch, key, to) ==
   [name     |-> m.name,
    params   |-> [i \in DOMAIN m.params |->
-                   IF rep THEN TopType(m.params[i].t, m.params[i].variadic, ch, sk, to) ELSE m.params[i].t],
-   results  |-> [i \in DOMAIN m.results |-> IF rep THEN TopType(m.results[i], FALSE, ch, sk, to) ELSE m.results[i]],
+                   IF rep THEN TopType(m.params[i].t, m.params[i].variadic, ch, key, to) ELSE m.params[i].t],
+   results  |-> [i \in DOMAIN m.results |-> IF rep THEN TopType(m.results[i], FALSE, ch, key, to) ELSE m.results[i]],
    variadic |-> Len(m.params) > 0 /\ m.params[Len(m.params)].variadic]
 
 RECURSIVE Refs(_)
@@ -171,18 +189,19 @@ Universe == {"orig", "alt", "same", "dst", "third"}
 \*   package once nothing mentions it any more), and never the file's own package.
 Outcome(rmocks) ==
   LET allrefs == UNION {UNION {MethodRefs(rmocks[i].methods[j]) : j \in DOMAIN rmocks[i].methods} : i \in DOMAIN rmocks}
-  IN [mocks |-> rmocks, req |-> allrefs \ {"dst"}, forb |-> (Universe \ allrefs) \cup {"dst"}]
+  IN [mocks |-> rmocks, req |-> allrefs \ {"dst", "src"}, forb |-> (Universe \ allrefs) \cup {"dst"}]   \* the source package's own import is not judged
 
 RenderAll(p, o, sk, tg, lv, ch, on) ==
   LET mks == MocksOf(o, lv) IN
   [i \in DOMAIN mks |->
      LET ms == MethodsOfIface(p, o, sk, mks[i].iface) IN
      [struct |-> mks[i].struct, iface |-> mks[i].iface,
-      methods |-> [j \in DOMAIN ms |-> RenderMethod(ms[j], on /\ Covered(mks[i], lv), ch, sk, MockTo(mks[i], lv, tg))]]]
+      methods |-> [j \in DOMAIN ms |-> RenderMethod(ms[j], on /\ Covered(mks[i], lv), ch, KeyFor(p, sk), MockTo(mks[i], lv, tg))]]]
 
 \* only the open points that occur in the case matter; restricting the choices keeps Accept small
 KindsIn(p) == CASE p = "variadic" -> {"variadic"}
                 [] p = "ptr"   -> {"ptr"}   [] p = "slice" -> {"slice"} [] p = "map" -> {"map"}
+                [] p = "targ"  -> {"inst"}
                 [] p = "chan"  -> {"chan"}  [] p = "func"  -> {"func"}  [] p = "mixed" -> {"ptr"}
                 [] OTHER -> {}
 RelevantChoices(p) == {ch \in Choices : ch.desc \subseteq KindsIn(p)}
